@@ -45,11 +45,10 @@ class Sulfur(material.Fluid):
             self.updateTD(TD_frac)
 
     def updateTD(self, TD):
-        self.fullDensFrac = float(TD)
+        self.adjustTD(float(TD))
 
     def setDefaultMassFracs(self):
         """Mass fractions."""
-        self.fullDensFrac = 1.0
         self.setMassFrac("S32", 0.9493)
         self.setMassFrac("S33", 0.0076)
         self.setMassFrac("S34", 0.0429)
@@ -67,7 +66,7 @@ class Sulfur(material.Fluid):
         Tk = getTk(Tc, Tk)
         self.checkPropertyTempRange("density", Tk)
 
-        return (2.18835 - 0.00098187 * Tk) * (self.fullDensFrac)
+        return (2.18835 - 0.00098187 * Tk) * self.getTD()
 
     def volumetricExpansion(self, Tk=None, Tc=None):
         """
